@@ -1,2 +1,164 @@
+"""C11 / L4: scalar-multiplication loops of gm-sm2 over discrete logs, cut at the loop head with an invariant.
+
+Points are Abs('g', dlog) (integer discrete logarithm w.r.t. the base point; point_add -> +, point_dbl -> *2: the L3 statements).
+At every arrival at the inner loop head the accumulated point must satisfy the invariant; it is then replaced by a fresh
+variable constrained by the invariant only (one inductive step per window, any number of windows)."""
+import sys, os
+sys.path.insert(0, os.path.dirname(os.path.abspath(__file__)))
+from arith import *
+
+
+def G(t):
+    return Abs("g", t if not isinstance(t, int) else z3.IntVal(t))
+
+
+def gval(v):
+    if isinstance(v, Abs):
+        return v.t
+    raise Unsupported("not a group element: %r" % (v,))
+
+
+def loop_heads(fn):
+    """blocks that call <Range as Iterator>::next, in block order"""
+    out = []
+    for bb in sorted(fn.blocks):
+        st, term = fn.blocks[bb]
+        if term[0] == "call" and "as Iterator>::next" in term[2]:
+            out.append(bb)
+    return out
+
+
+def local_of(fn, name):
+    m = re.match(r"_(\d+)$", fn.debug.get(name, ""))
+    if not m:
+        raise Unsupported("no local for %s in %s" % (name, fn.key))
+    return int(m.group(1))
+
+
+import re
+
+
+N_SM2 = 0xFFFFFFFEFFFFFFFFFFFFFFFFFFFFFFFF7203DF6B21C6052B53BBF40939D54123
+
+
+def is_zero_summary(ex, argv):
+    """[d]P is the point at infinity iff the order of P divides d; every point of the SM2 curve other than infinity has
+    order n (prime group order, cofactor 1) - exact, linear: d = n*m + rr with 0 <= rr < n and is_zero <=> rr == 0"""
+    d = gval(ex.load(argv[0]))
+    ds = z3.simplify(d)
+    if z3.is_int_value(ds):
+        return Sc(ds.as_long() % N_SM2 == 0, "bool")
+    m, rr = ex.ctx.fresh("ordq", "int"), ex.ctx.fresh("ordr", "int")
+    ex.ctx.facts.append(z3.And(d == N_SM2 * m + rr, rr >= 0, rr < N_SM2))
+    return ex.dom.mkbool(rr == 0)
+
+
+def prune_local(a):
+    """feasibility of the newest condition against the facts within two variable-sharing hops of it
+    (fewer premises can only make more branches look feasible: no path is lost)"""
+    return smt.feasible(relevant(a[:-1], a[-1], 2) + [a[-1]], 5)
+
+
+def group_summaries():
+    return {"Point::point_add": lambda ex, argv: G(gval(ex.load(argv[0])) + gval(ex.load(argv[1]))),
+            "Point::point_dbl": lambda ex, argv: G(2 * gval(ex.load(argv[0]))),
+            "Point::zero": lambda ex, argv: G(0),
+            "Point::is_zero": is_zero_summary,
+            "<Point as Clone>::clone": lambda ex, argv: ex.load(argv[0])}
+
+
+def ob_scalar_mul():
+    def body(stats):
+        c = load_crate("gm-sm2")
+        fn = c.find("Point::scalar_mul")
+        heads = loop_heads(fn)
+        if len(heads) < 2:
+            raise Inconclusive("scalar_mul: expected nested counting loops, found %d loop heads" % len(heads))
+        r_local = local_of(fn, "r")
+        i_local = local_of(fn, "i")
+        seen = set()
+        def run(ctx):
+            dom = INT(); ex = Ex(c, dom, ctx)
+            ex.summaries = group_summaries()
+            k = limbs(dom, "k", 4)
+            K = val(dom, k)
+            # A_i = integer formed by the i most significant limbs (A_0 = 0, A_{i+1} = A_i*2^64 + limb_{3-i});
+            # within limb i the prefix after j nibbles is A_i*16^j + (limb >> (64-4j)): the invariant stays local to one limb
+            A = [z3.IntVal(0)]
+            for i in range(4):
+                a = z3.Int("A_%d" % (i + 1))
+                ctx.facts.append(a == A[i] * (1 << 64) + dom.term(k[3 - i]))
+                A.append(a)
+            def prefix(i, j):
+                h = dom.term(dom.divmod(k[3 - i], 64 - 4 * j)[0]) if j > 0 else z3.IntVal(0)
+                return A[i] * (16 ** j) + h
+            def hook(ex_, fn_, frame, visit, bb=None):
+                # the window loop is recognised by its state, not by its position: a counting loop to 16 entered while
+                # the limb counter `i` is live; (i, j) are read from the loop state itself
+                st = fn.blocks[bb][0]
+                itl = st[0][1][2][1] if st and st[0][1][0] == "ref" else None
+                ic = frame.get(i_local)
+                if itl is None or ic is None or ic.val is None or frame.get(itl) is None:
+                    return
+                rng_ = frame[itl].val
+                if not (isinstance(rng_, Agg) and len(rng_.f) == 2 and all(isinstance(x, Sc) and x.conc() for x in rng_.f)):
+                    return
+                if rng_.f[1].v != 16 or not (isinstance(ic.val, Sc) and ic.val.conc()):
+                    return
+                i, j = ic.val.v, rng_.f[0].v
+                if j >= 16 or i >= 4:
+                    return                      # the visit on which the inner range is exhausted
+                t = 16 * i + j
+                cur = frame[r_local].val
+                inv = gval(cur) == 16 * prefix(i, j)
+                ctx.oblige("invariant", inv, "before window %d the accumulator is [16 * (top %d nibbles of k)]P" % (t, t), "scalar_mul loop head")
+                if ctx.pos >= ctx.n_replay and t in seen:
+                    raise PathDone()
+                seen.add(t)
+                acc = z3.Int("acc_%d" % t)
+                ctx.facts.append(acc == 16 * prefix(i, j))
+                frame[r_local].val = G(acc)
+                ctx.pc = []
+            ex.block_hooks = {(fn.name, h): (lambda e_, f_, fr, v, h=h: hook(e_, f_, fr, v, h)) for h in heads}
+            P = G(1)
+            r = ex.run_fn(fn, [Ref(Cell(P, "P")), Ref(arr_cell(k, "k"), (), (0, 4))])
+            return dom, A[4], r
+        paths = explore(run, prune=prune_local, max_paths=400)
+        named = {"k%d" % i: z3.Int("k%d" % i) for i in range(4)}
+        # the obligations recorded at loop heads and every MIR assert
+        for ctx_, _ in paths:
+            check_panics(stats, ctx_, named, 60, hops=(1, 2, 3, 5), fresh_only=True)
+        fin = [(c_, r_) for c_, r_ in paths if not c_.aborted]
+        if not fin:
+            raise Inconclusive("no path reaches the end of scalar_mul")
+        for ctx_, (dom, K, r) in fin:
+            discharge(stats, ctx_.facts + ctx_.pc, gval(r) == K, "scalar_mul(P, k) = [k]P (discrete log of the result equals k)", named, 60, hops=(1, 2, 3, 5))
+        if len(seen) != 64:
+            raise Inconclusive("loop head reached for %d of 64 windows" % len(seen))
+        return {"paths": len(paths), "windows": len(seen)}
+    return run_obligation("L4_sm2_scalar_mul_all_scalars", ["gm_sm2::p256_ecc::Point::scalar_mul"],
+                          "ALL 256-bit scalars (4 symbolic limbs); loop cut at the inner loop head, invariant acc = [16 * (top t nibbles of k)]P, one inductive step per window t = 0..63", body,
+                          ["point_add -> dlog addition, point_dbl -> dlog doubling (L3 statements: valid for all representations incl. P=Q, P=-Q, infinity)"])
+
+
 def jobs(tier):
-    return []
+    return [ob_scalar_mul]
+
+
+def replayer(res):
+    """native replay of a counterexample scalar: the real scalar_mul on the base point against the reference [k]G"""
+    if not res.name.startswith("L4_sm2_scalar_mul") or not isinstance(res.ce, dict):
+        return None
+    try:
+        k = sum(int(str(res.ce["k%d" % i]), 16) << (64 * i) for i in range(4))
+    except Exception:  # noqa
+        return None
+    sys.path.insert(0, os.path.join(os.path.dirname(os.path.dirname(os.path.abspath(__file__))), "ref"))
+    import sm2 as ref
+    from core import native
+    got = native("sm2_scalar_mul_g", "%064x" % k)
+    want = ref.mul(k % ref.n, ref.G) if hasattr(ref, "n") else ref.mul(k % N_SM2, ref.G)
+    exp = "ok:inf" if want is None else "ok:" + ref.enc_point(want).hex()
+    if got is None:
+        return None
+    return {"reproduced": got != exp, "k": "%064x" % k, "library": got[:140], "reference": exp[:140]}
